@@ -83,7 +83,9 @@ static void conc_case(int warm, unsigned dimsel, int T, int rounds, unsigned rep
   char key[96];
   const int sched = (int)(rep % 3);
   static const char* sn[] = {"free", "pinned-2cpu", "yield"};
-  snprintf(key, sizeof key, "concurrent:%s|T=%d,%s", warm ? "simple-API(warmed-up)" : "module+table-API(cold)", T, sn[sched]);
+  // every third cold case shares objects created under the generic-C dispatch (the portable kernels have their own code)
+  const int cfg = (!warm && (rep + (unsigned)T) % 3 == 2) ? DISP_GENERIC : DISP_NATIVE;
+  snprintf(key, sizeof key, "concurrent:%s|T=%d,%s%s", warm ? "simple-API(warmed-up)" : "module+table-API(cold)", T, sn[sched], cfg == DISP_GENERIC ? ",generic-dispatch" : "");
   const uint64_t* DIMS = G.thorough ? DIMS_T : DIMS_Q;
   const size_t nd = G.thorough ? ARRAY_LEN(DIMS_T) : ARRAY_LEN(DIMS_Q);
   const uint64_t N1 = DIMS[dimsel % nd], N2 = DIMS[(dimsel + 1 + rep) % nd];
@@ -93,8 +95,8 @@ static void conc_case(int warm, unsigned dimsel, int T, int rounds, unsigned rep
   // shared objects, created by the main thread; in the "ro" build they live in read-only pages afterwards
   env_t* envs[2];
   ro_capture(1);
-  envs[0] = env_create(N1, 1);
-  envs[1] = env_create(N2 == N1 ? N1 * 2 : N2, 1);
+  envs[0] = env_create(N1, cfg);
+  envs[1] = env_create(N2 == N1 ? N1 * 2 : N2, cfg);
   ro_capture(0);
   size_t robytes = ro_protect();
   if (ro_available()) {
@@ -197,6 +199,7 @@ static void conc_case(int warm, unsigned dimsel, int T, int rounds, unsigned rep
   }
   cnt("concurrent_calls", ncalls);
   cntf("schedule:%s", 1, sn[sched]);
+  cntf("shared_objects_dispatch:%s", 1, disp_name[cfg]);
   cnt("overlapping_call_pairs", overlaps);
   cnt("first_call_overlaps", (uint64_t)first_overlap);
   if (tsan_reports_in_case) {
@@ -250,7 +253,7 @@ static void construction_case(int T, unsigned rep) {
   static const uint64_t CN[] = {4, 16, 64, 256, 2048, 4096, 16384, 1024};
   for (int t = 0; t < T; t++) {
     memset(&th[t], 0, sizeof th[t]);
-    th[t].N = CN[rng_u64(r) % (G.thorough ? ARRAY_LEN(CN) : 5)];  // quick tier: N <= 2048
+    th[t].N = CN[rng_u64(r) % ARRAY_LEN(CN)];  // few values: several threads build objects of the same dimension
     th[t].seed = rng_u64(r);
     th[t].bar = &bar;
     seq[t] = th[t];
@@ -270,6 +273,70 @@ static void construction_case(int T, unsigned rep) {
   case_end(1);
 }
 
+// first use: T threads make their first calls on a fresh set of shared objects at the same moment, all of them
+// starting with the same heavy entry points (anything built lazily on first use must be race free and complete)
+static void first_use_case(uint64_t N, int T, int cfg, unsigned rep) {
+  char key[96];
+  snprintf(key, sizeof key, "concurrent:first-use|T=%d%s", T, cfg == DISP_GENERIC ? ",generic-dispatch" : "");
+  if (!case_begin(key, "N=%" PRIu64 " threads=%d rep=%u", N, T, rep)) return;
+  rng_t* r = crng();
+  tsan_reports_in_case = 0;
+  static const char* const FU[] = {"vec_znx_idft", "znx_small_single_product", "vec_znx_idft_tmp_a", "reim_ifft", "reim_fft", "cplx_ifft", "cplx_fft", "vec_znx_dft", "svp_prepare", "svp_apply_dft",
+                                   "vmp_prepare_contiguous", "vmp_apply_dft", "vmp_apply_dft_to_dft", "vec_znx_dft@ntt120", "vec_znx_idft@ntt120", "vec_znx_idft_tmp_a@ntt120", "reim_fftvec_mul", "reim_fftvec_addmul",
+                                   "cplx_fftvec_mul", "reim4_fftvec_mul", "reim_to_znx64", "reim_from_znx64", "reim_to_tnx", "cplx_to_tnx32", "q120_ntt_bb_avx2", "q120_intt_bb_avx2"};
+  enum { NFU = sizeof FU / sizeof FU[0] };
+  env_t* envs[2];
+  envs[0] = envs[1] = env_create(N, cfg);
+  thr_t th[MAXT];
+  pthread_t tid[MAXT];
+  pthread_barrier_t bar;
+  pthread_barrier_init(&bar, 0, (unsigned)T);
+  // rotation of the list: which entry point is the very first call differs from case to case, not between threads
+  const unsigned rot = rep % NFU;
+  for (int t = 0; t < T; t++) {
+    th[t].tid = t;
+    th[t].envs = envs;
+    th[t].bar = &bar;
+    th[t].sched = 0;
+    th[t].jitter = 0;
+    th[t].ncalls = NFU;
+    th[t].calls = calloc(NFU, sizeof(call_t));
+    for (int i = 0; i < NFU; i++) {
+      call_t* c = &th[t].calls[i];
+      c->op = op_find(FU[(i + rot) % NFU]);
+      if (c->op < 0) harness_fail("first_use_case: %s not in the catalogue", FU[(i + rot) % NFU]);
+      c->envi = 0;
+      c->seed = rng_u64(r);
+      c->prefill = (int)(rng_u64(r) & 3);
+      c->mis = (unsigned)(rng_u64(r) & 7);
+    }
+  }
+  for (int t = 0; t < T; t++) pthread_create(&tid[t], 0, worker, &th[t]);
+  for (int t = 0; t < T; t++) pthread_join(tid[t], 0);
+  pthread_barrier_destroy(&bar);
+  uint64_t nbad = 0, first_overlap = 0;
+  for (int t = 0; t < T; t++) {
+    for (int i = 0; i < NFU; i++) {
+      call_t* c = &th[t].calls[i];
+      opres_t s;
+      op_exec(&OPS[c->op], envs[0], c->seed, c->prefill, c->mis, 0, &s);
+      if (s.skipped) continue;
+      if (s.out_hash != c->hash && nbad++ < 3) viol("differential", "%s: first use of fresh objects by %d threads at once differs from the same call run alone (N=%" PRIu64 ", thread %d, call %d)", OPS[c->op].name, T, N, t, i);
+      if (c->bad && nbad++ < 3) viol(c->bad & 1 ? "canary" : "snapshot", "%s at first use: %s", OPS[c->op].name, c->msg);
+    }
+    for (int u = t + 1; u < T; u++)
+      if (th[t].calls[0].t0 <= th[u].calls[0].t1 && th[u].calls[0].t0 <= th[t].calls[0].t1) first_overlap++;
+  }
+  if (tsan_reports_in_case) viol("tsan", "ThreadSanitizer produced %d report(s) during the first concurrent use", tsan_reports_in_case);
+  cnt("first_use_cases", 1);
+  cnt("first_use_overlapping_first_calls", first_overlap);
+  cntf("first_use_N:%" PRIu64, 1, N);
+  sample("%d threads x %d first calls on fresh objects (first entry point %s); %" PRIu64 " pairs of very first calls overlapped", T, (int)NFU, FU[rot], first_overlap);
+  env_destroy(envs[0]);
+  for (int t = 0; t < T; t++) free(th[t].calls);
+  case_end(1);
+}
+
 void run_C12(void) {
   const int th = G.thorough;
   static const int TS[] = {8, 16, 4, 2};
@@ -280,4 +347,6 @@ void run_C12(void) {
   for (unsigned rep = 0; rep < n; rep++)
     for (size_t ti = 0; ti < ARRAY_LEN(TS); ti++) conc_case(1, rep + (unsigned)ti, TS[ti], 3, rep);
   for (unsigned rep = 0; rep < (th ? 60u : 6u); rep++) construction_case(rep & 1 ? 16 : 4, rep);
+  for (unsigned rep = 0; rep < (th ? 26u : 2u); rep++)
+    for (size_t ni = 0; ni < N_ALL_N; ni++) first_use_case(ALL_N[ni], rep & 1 ? 8 : 4, (rep % 3) == 2 || (!th && rep == 1 && (ni & 1)) ? DISP_GENERIC : DISP_NATIVE, rep);
 }
